@@ -2,11 +2,11 @@
 from checks import symgen
 
 ID = 'C08'
-PROP_MODULES = ['QRV.Props.C08', 'QRV.Props.C08Ext', 'QRV.Props.C08RMQR', 'QRV.Props.C08Micro']
+PROP_MODULES = ['QRV.Props.C08', 'QRV.Props.C08Entry', 'QRV.Props.C08Ext', 'QRV.Props.C08RMQR', 'QRV.Props.C08Micro']
 RULE = ('descriptions over the full field ranges: Version/Level/Mask in {min-2..max+2, large, negative large}, every (version, level) pair, segment modes sampled over 0..255 (all '
         'supported ones, their neighbours, reserved QR modes), payloads at max-1 / max / max+1 characters of every (version, level, mode) capacity and of every count-field '
         'limit (2^bits-1, 2^bits), invalid characters at first/last position, invalid UTF-8 in kanji segments, empty segment lists and empty segments. '
-        'Oracle: implementation succeeds iff the reference validity predicate (written from the standard) holds, and never panics; also run on the Lean model. '
+        'The image method (*QRCode).Encode is run on the same descriptions (quiet zone 0, module size 1) and must agree with EncodeToBitmap on acceptance and on every module. Oracle: implementation succeeds iff the reference validity predicate (written from the standard) holds, and never panics; also run on the Lean model. '
         'non-trivial = description that is valid, or invalid in exactly one respect (every description is generated that way, so all distinct ones count)')
 TRUSTED = [
     'Lean 4.33.0 kernel; axioms per theorem as listed',
@@ -14,7 +14,7 @@ TRUSTED = [
     'symbol models tied by correspondence',
 ]
 ASSUMPTIONS = []
-PARTIAL = 'none for the models: accepted exactly when valid, and never a panic, are theorems for all three encoders (qr_/micro_/rmqr_encode_ok_iff_valid, *_encode_no_panic); Encode (PNG rendering on top of EncodeToBitmap) is exercised only'
+PARTIAL = 'none for the models: accepted exactly when valid, and never a panic, are theorems for all three encoders (qr_/micro_/rmqr_encode_ok_iff_valid, *_encode_no_panic); the image method Encode (rendering on top of EncodeToBitmap) is not modelled: it is run on the same descriptions and must accept exactly what EncodeToBitmap accepts without panicking'
 MANIFEST = {
     'technique': 'Lean 4: encode_ok_iff_valid and no-panic for the QR encoder model (error-or-valid lemma + round-trip theorem), error-or-valid for Micro QR / rMQR; differential runs over the full field ranges against a reference validity predicate',
     'text': ('QRV/Props/C08.lean proves for the QR encoder model: it succeeds exactly on the descriptions that are valid by the standard (Spec.Valid: fields in range, supported modes, characters valid '
@@ -86,8 +86,18 @@ def gen(ctx):
                     bad = {'num': b'a', 'alnum': b'a', 'byte': b'\x00', 'kanji': r.choice([b'a', b'\xe3\x81', b'\xff', '丂'.encode(), b'\xf0\x9f\x98\x80'])}[k]
                     data = bad + good if pos == 'first' else good + bad
                     add(sym, ver, level, 0, [(ref.MODE[k], data)], 'badchar')
+    # the image method (*QRCode).Encode on the same hand-built descriptions: it must accept exactly what EncodeToBitmap
+    # accepts, never panic, and at quiet zone 0 / module size 1 be the bitmap itself (implementation only)
+    img = [i for i, m in enumerate(meta) if m[5] in ('fields', 'mask', 'mode', 'badchar') or i % (4 if ctx.tier == 'quick' else 2) == 0]
+    for i in img:
+        L.append(L[i].replace('.enc ', '.encimg ', 1))
     ctx.c08 = meta
+    ctx.c08img = img
     return L
+
+
+def model_line(l):
+    return '.encimg ' not in l
 
 
 def oracle(ctx, lines, out):
@@ -111,6 +121,17 @@ def oracle(ctx, lines, out):
             cnt[key] = cnt.get(key, 0) + 1
             if cnt[key] <= 2:
                 v.append({'key': key, 'lines': [lines[i]], 'expect': 'ok' if want else 'err', 'got': o[:100], 'detail': detail})
+    for j, i in enumerate(ctx.c08img):
+        (sym, ver, level, mask, segs, tag) = meta[i]
+        o = out[len(meta) + j]
+        if o in ('same ok', 'same err'):
+            continue
+        key = '%s:image-method:%s' % (sym, o.split()[0])
+        cnt[key] = cnt.get(key, 0) + 1
+        if cnt[key] <= 2:
+            v.append({'key': key, 'lines': [lines[len(meta) + j]], 'expect': 'same', 'got': o[:100],
+                      'detail': '%s (*QRCode).Encode %s where EncodeToBitmap answers %s: Version=%d Level=%d Mask=%d Segments=[%s]' % (
+                          sym, 'panics' if o.startswith('panic') else 'answers "%s"' % o[:80], out[i][:20], ver, level, mask, symgen.show_segs(segs))})
     for x in v:
         x['detail'] += ' (%d such cases in this run)' % cnt[x['key']]
     return v
